@@ -349,6 +349,10 @@ def conv_cases(chk):
     for n in ['', '0', '1', '10', '1.5', '-2', ' 3 ', '1_0', 'x', '+4']:
         for suf in ['', 'kb', 'KB', 'Mb', 'gB', 'b', 'XB', 'tb', 'k', 'kbb', ' kb', 'kb ']:
             sizes.append(n + suf)
+    sizes += ['10KKB', '2GGB', '50MMB', '1kbkb', '12bkb', 'kbkb', '10k b', '1 0kb', '10 kb', '+5mb', '-5mb', '1.5gb', '0x10kb',
+              '10bk', '10kbb', '10mbb', '1e3kb', '1_0kb', '__kb', '10kbkb', '10KBMB', '10k', '10m', '10g', '10b', '10kib',
+              '1,000kb', '10kb.', '.5mb', '5.mb', '0b1kb', '0o7kb', '10 mb 5', 'k10b', '1k0b', '1kkkb', '1bbbb', '5kbk', '5gbb',
+              '7MBB', '7mmb', '3GBGB', '3gbkb', '0kkb', 'bkb', 'kkb', 'mmb', 'ggb']
     for s in sizes:
         add('byte_size', dt.byte_size, s, lambda r: [('Z', r)], 'int')
     for s in ['true', 'false', 'yes', 'no', 'on', 'off', '1', '0', 'TRUE', 'False', 'Yes', 'oN', 't', 'y', '', '2', 'tru', ' true', 'maybe', '01']:
@@ -452,9 +456,87 @@ def server_stream(chk, fresh_dir, clean):
     return n
 
 
+def subscription_stream(chk, fresh_dir, clean):
+    """events= lines -> real parser -> real EventListenerPool (make_group) ->
+    one events.notify per class of the hierarchy; how often each reaches the
+    pool's buffer.  Judged on the implementation (exactly once iff the class
+    or one of its superclasses is listed) and queued for the Coq model
+    (Subscribe.check_subscription over C09's generated hierarchy)."""
+    import c14_cfg
+    from supervisor import events
+    from supervisor.events import EventTypes
+    names = [k for k in vars(EventTypes) if not k.startswith('_')]
+    cls_of = dict((k, getattr(EventTypes, k)) for k in names)
+    hierarchy = [c for c in vars(events).values()
+                 if isinstance(c, type) and issubclass(c, events.Event)]
+    rng = chk.rng
+    lines = list(names)
+    for a in names:
+        for b_ in names:
+            if a != b_ and issubclass(cls_of[b_], cls_of[a]):
+                lines += ['%s,%s' % (a, b_), '%s,%s' % (b_, a)]            # supertype with its subtype, both orders
+    lines += ['PROCESS_STATE,PROCESS_STATE', 'tick_5,TICK_5,TICK', 'TICK_5,TICK_60', 'EVENT,TICK_5,PROCESS_STATE',
+              'PROCESS_STATE_RUNNING,EVENT', 'PROCESS_COMMUNICATION_STDOUT,PROCESS_COMMUNICATION,PROCESS_LOG',
+              'PROCESS_GROUP_ADDED,PROCESS_GROUP,PROCESS_GROUP_REMOVED,PROCESS_GROUP',
+              'PROCESS_STATE_STARTING,PROCESS_STATE_BACKOFF', 'TICK_5,TICK,TICK_60,TICK,TICK_3600',
+              'PROCESS_STATE_STOPPED, process_state ,PROCESS_STATE_EXITED']
+    for _ in range(40 if chk.tier == 'quick' else 1500):
+        lines.append(rng.choice([',', ', ']).join(rng.choice(names) if rng.random() < 0.85 else rng.choice(names).lower()
+                                                  for _ in range(rng.randrange(1, 6))))
+    if chk.tier == 'quick':
+        # all single names, the special lists, the random ones and a deterministic half of the pairs
+        lines = [l for i, l in enumerate(lines) if i < len(names) or i >= len(lines) - 50 or i % 2 == chk.seed % 2]
+    cases, meta = [], []
+    for line in lines:
+        here = fresh_dir()
+        cfg = {'main': [('supervisord', []),
+                        ('eventlistener:lis', [('command', '/bin/lis'), ('events', line), ('buffer_size', '500')])], 'incs': []}
+        path = c14_cfg.write_case(cfg, here)
+        r = c14_cfg.real_parse(path)
+        chk.dist('stream:listener-subscription')
+        rep = {'stream': 'subscription', 'label': 'events=' + line, 'files': _file_texts(cfg, here)}
+        if r[0] != 'ok':
+            rep['kind'] = 'a well-formed events= line was not accepted: %r' % (r[1:],)
+            chk.violation(rep)
+            clean(here)
+            continue
+        listed = [cls_of[x.strip().upper()] for x in line.split(',')]
+        gconf = [g for g in r[1].process_group_configs if g.name == 'lis'][0]
+        events.clear()
+        try:
+            pool = gconf.make_group()
+            observed = []
+            for c in hierarchy:
+                del pool.event_buffer[:]
+                ev = c.__new__(c)
+                events.notify(ev)
+                observed.append((c, sum(1 for e in pool.event_buffer if e is ev)))
+        except Exception as e:
+            rep['kind'] = 'building the pool or notifying it raised %s: %s' % (type(e).__name__, e)
+            chk.violation(rep)
+            clean(here)
+            continue
+        finally:
+            events.clear()
+        wrong = [(c.__name__, n, 1 if any(issubclass(c, l) for l in listed) else 0) for c, n in observed
+                 if n != (1 if any(issubclass(c, l) for l in listed) else 0)]
+        if wrong:
+            rep['kind'] = ('the pool made from this section is not subscribed to exactly its listed event types: one '
+                           'notification of %s reaches it %d time(s), expected %d' % wrong[0])
+            rep['all_wrong'] = wrong[:10]
+            chk.violation(rep)
+            clean(here)
+            continue
+        cases.append('(%s, [%s])' % (c14_cfg.cstr(line), '; '.join('(T_%s, %d)' % (c.__name__, n) for c, n in observed)))
+        meta.append(rep)
+        clean(here)
+    return cases, meta
+
+
 def run(chk):
     import c14_defaults
-    proved = chk.prove('props/C14.v', gens=[c14_defaults.generate])
+    import c09_events
+    proved = chk.prove('props/C14.v', gens=[c14_defaults.generate, c09_events.generate])
     with vlib.WorkDir('c14') as wd:
         _run(chk, wd, proved)
 
@@ -707,6 +789,9 @@ def _run(chk, wd, proved):
     # ---- 7. [unix_http_server] / [inet_http_server] (outside the model: judged by a small specification)
     nserver = server_stream(chk, fresh_dir, clean)
 
+    # ---- 8. eventlistener sections -> real pool -> notifications of every class of the hierarchy
+    scases, smeta = subscription_stream(chk, fresh_dir, clean)
+
     # ---- Coq comparison of everything queued
     total = len(cases)
     pre = c14_cfg.coq_preamble()
@@ -730,11 +815,13 @@ def _run(chk, wd, proved):
     if bare:
         known('C14-bare-format', '%d format strings' % bare)
     for name, ctype, fn, cs, mt in [
+        ('subscription', 'string * list (etype * Z)', 'check_subscription', scases, smeta),
         ('expand', 'string * exps * list atom', 'check_expand', ecases, emeta),
         ('kv', 'string * list atom', 'check_kv', kcases, kmeta),
         ('conv', 'string * string * list atom', 'check_conv', ccases, cmeta),
     ]:
-        b2, e2 = vlib.coq_compare(IMPORTS, ctype, fn, cs, wd, shard=700, tag=name, preamble='Open Scope string_scope.')
+        b2, e2 = vlib.coq_compare(IMPORTS + ['SV.C09.Gen_EvTypes', 'SV.C09.EvTypes', 'SV.C14.Subscribe'], ctype, fn, cs, wd,
+                                  shard=(60 if name == 'subscription' else 700), tag=name, preamble='Open Scope string_scope.')
         total += len(cs)
         chk.dist('unit:' + name, len(cs))
         for e in e2:
